@@ -5,6 +5,7 @@ import (
 	"strings"
 	"time"
 
+	abci "github.com/cometbft/cometbft/abci/types"
 	sdk "github.com/cosmos/cosmos-sdk/types"
 
 	"verifharness/fw"
@@ -21,7 +22,7 @@ import (
 func init() {
 	fw.Register(&fw.Property{
 		ID: "C13", Level: "exploration",
-		Rule: "each case: a mixed history (with governance rotations of the enterprise signer set) interrupted by 2-3 probe points; at each probe point, for every state-changing message type of the four modules (raise, decide, whitelist, WRKChain/BEACON register/record/purchase, stream create/claim/top-up/rate/cancel, MsgUpdateParams x4) x every account as SIGNING KEY x {itself, the entitled party, another account, the gov authority} as the ADDRESS NAMED in the message - directly and wrapped in MsgExec without a grant - the tx is delivered with zero fee and the raw diff of all stores is taken. Rules: named != signing key => every store byte-identical; custom-module state changed => the signer is the entitled party per the pre-state (current enterprise signer, registered owner, stream sender/receiver, never for parameter updates); rejected => custom-module stores byte-identical. distinct = (message type, signer relation, outcome)",
+		Rule: "each case: a mixed history (with governance rotations of the enterprise signer set) interrupted by 2-3 probe points; at each probe point, for every state-changing message type of the four modules (raise, decide, whitelist, WRKChain/BEACON register/record/purchase, stream create/claim/top-up/rate/cancel, MsgUpdateParams x4) x every account as SIGNING KEY x {itself, the entitled party, another account, the gov authority} as the ADDRESS NAMED in the message - directly and wrapped in MsgExec without a grant - the tx is delivered with zero fee and the raw diff of all stores is taken. Rules: named != signing key => every store byte-identical; custom-module state changed => the signer is the entitled party per the pre-state (current enterprise signer, registered owner, stream sender/receiver, never for parameter updates); rejected => custom-module stores byte-identical. Governance-delivered probes: after each probe point one REAL proposal per message (submit, vote, tally) carries decide / whitelist / record / purchase / top-up / rate / cancel / claim messages that name the gov module account as the acting party (it is entitled to parameter updates only and owns nothing in these histories): the EndBlock that executes them must leave the four custom-module stores byte-identical. distinct = (message type, signer relation, outcome)",
 		Cases: func(tier string) int {
 			if tier == "thorough" {
 				return 2000
@@ -29,7 +30,7 @@ func init() {
 			return 64
 		},
 		Run:  runC13,
-		Need: []string{"probes", "probes_wrong_key", "probes_not_entitled", "probes_entitled_ok"},
+		Need: []string{"probes", "probes_wrong_key", "probes_not_entitled", "probes_entitled_ok", "gov_delivered_probes"},
 		Assumptions: []string{"entitlement is decided from the observed pre-state by decoded address; probes carry zero fee so that the ante stage writes nothing to custom-module stores"},
 	})
 }
@@ -71,6 +72,7 @@ func runC13(c *fw.Ctx) {
 			c.Count("signer_rotations", 1)
 		}
 		c13ProbePoint(c, e, g)
+		c13GovDelivered(c, e, g)
 	}
 	noteHalt(e)
 	c.Nontrivial()
@@ -251,4 +253,98 @@ func nameOf(g *Gen, a lab.Acct) string {
 		return "gov-authority"
 	}
 	return fmt.Sprintf("a%d", g.idx(a))
+}
+
+// c13GovDelivered: messages executed by the gov module (its account is the "signer") for operations
+// that belong to somebody else. One proposal per message, all resolved in the same EndBlock.
+func c13GovDelivered(c *fw.Ctx, e *Env, g *Gen) {
+	if e.Halted != "" {
+		return
+	}
+	r := e.R
+	obs := e.Last
+	gov := lab.GovAuthority()
+	accts := e.L.Accts
+	type gp struct {
+		kind string
+		msg  sdk.Msg
+	}
+	var ps []gp
+	ps = append(ps, gp{"Whitelist", &enttypes.MsgWhitelistAddress{Address: accts[r.Intn(len(accts))].Addr.String(), Signer: gov, Action: enttypes.WhitelistActionAdd}})
+	if len(obs.Whitelist) > 0 {
+		ps = append(ps, gp{"Whitelist", &enttypes.MsgWhitelistAddress{Address: obs.Whitelist[r.Intn(len(obs.Whitelist))], Signer: gov, Action: enttypes.WhitelistActionRemove}})
+	}
+	for _, id := range obs.RaisedQ {
+		dec := enttypes.StatusAccepted
+		if r.Bool() {
+			dec = enttypes.StatusRejected
+		}
+		ps = append(ps, gp{"PoDecide", &enttypes.MsgProcessUndPurchaseOrder{PurchaseOrderId: id, Decision: dec, Signer: gov}})
+		if len(ps) > 5 {
+			break
+		}
+	}
+	if len(obs.Wrk) > 0 {
+		wc := obs.Wrk[r.Intn(len(obs.Wrk))]
+		ps = append(ps, gp{"WrkRec", &wrkchaintypes.MsgRecordWrkChainBlock{WrkchainId: wc.WrkchainId, Height: wc.Lastblock + 1, BlockHash: g.hash(32), Owner: gov}},
+			gp{"WrkBuy", &wrkchaintypes.MsgPurchaseWrkChainStateStorage{WrkchainId: wc.WrkchainId, Number: 1, Owner: gov}})
+	}
+	if len(obs.Beacons) > 0 {
+		bc := obs.Beacons[r.Intn(len(obs.Beacons))]
+		ps = append(ps, gp{"BcnRec", &beacontypes.MsgRecordBeaconTimestamp{BeaconId: bc.BeaconId, Hash: g.hash(32), SubmitTime: 77, Owner: gov}},
+			gp{"BcnBuy", &beacontypes.MsgPurchaseBeaconStateStorage{BeaconId: bc.BeaconId, Number: 1, Owner: gov}})
+	}
+	if len(obs.Streams) > 0 {
+		st := obs.Streams[r.Intn(len(obs.Streams))]
+		ps = append(ps, gp{"StTopUp", &streamtypes.MsgTopUpDeposit{Receiver: st.Receiver, Sender: gov, Deposit: sdk.NewCoin(st.Stream.Deposit.Denom, sdk.NewInt(5))}},
+			gp{"StRate", &streamtypes.MsgUpdateFlowRate{Receiver: st.Receiver, Sender: gov, FlowRate: st.Stream.FlowRate + 1}},
+			gp{"StCancel", &streamtypes.MsgCancelStream{Receiver: st.Receiver, Sender: gov}},
+			gp{"StClaim", &streamtypes.MsgClaimStream{Receiver: gov, Sender: st.Sender}})
+	}
+	a0 := accts[0]
+	e.BeginBlock(time.Second)
+	var kinds []string
+	for _, p := range ps {
+		sp, err := newSubmitProposal([]sdk.Msg{p.msg}, a0.Addr.String())
+		if err != nil {
+			continue
+		}
+		rs, ok := e.Deliver(&TxPlan{Spec: lab.TxSpec{Msgs: []sdk.Msg{sp}, Signers: []lab.Acct{a0}, Gas: 3_000_000}, Desc: "gov-submit probe " + p.kind + " named=gov-authority"})
+		if !ok || rs.Code != 0 {
+			continue
+		}
+		var pid uint64
+		if v, ok := lab.EventAttr(rs.Events, "submit_proposal", "proposal_id"); ok {
+			fmt.Sscan(v, &pid)
+		}
+		if vr, ok := e.Deliver(&TxPlan{Spec: lab.TxSpec{Msgs: []sdk.Msg{newVote(a0.Addr, pid)}, Signers: []lab.Acct{a0}, Gas: 1_000_000}, Desc: "gov-vote"}); ok && vr.Code == 0 {
+			kinds = append(kinds, p.kind)
+		}
+	}
+	e.EndBlock()
+	if e.Halted != "" || len(kinds) == 0 {
+		return
+	}
+	var after lab.Snapshot
+	mon := &Monitor{Name: "c13-gov-delivered", AfterEnd: func(e *Env, pre, post *lab.Obs, er abci.ResponseEndBlock) {
+		after = e.L.SnapshotStores(e.L.Ctx(), lab.CustomStores)
+	}}
+	e.Monitors = append(e.Monitors, mon)
+	e.BeginBlock(11 * time.Second) // the voting period (10 s) ends: every proposal is tallied and executed in this EndBlock
+	var before lab.Snapshot
+	if e.Halted == "" {
+		before = e.L.SnapshotStores(e.L.Ctx(), lab.CustomStores)
+	}
+	e.EndBlock()
+	e.Monitors = e.Monitors[:len(e.Monitors)-1]
+	if e.Halted != "" || before == nil || after == nil {
+		return
+	}
+	c.Count("gov_delivered_probes", int64(len(kinds)))
+	for _, k := range kinds {
+		c.Distinct(k + "/named=gov/gov-delivered")
+	}
+	if diffs := lab.DiffSnapshots(before, after); len(diffs) > 0 {
+		c.Violate("not-entitled-changed-state", "gov-delivered", "proposals executed by the gov module account (%s), which is entitled to parameter updates only, changed module state: %s (+%d more keys)", strings.Join(kinds, ","), diffs[0].String(), len(diffs)-1)
+	}
 }
